@@ -63,10 +63,12 @@ type SState struct {
 	Marks map[string]SVal
 	// comma-ok type assertions: ok variable -> (token of the asserted value, asserted type)
 	Asserts map[types.Object][2]string
+	// what a function literal entered by the walk returned, per call expression (fmt %p)
+	Rets map[string][]SVal
 }
 
 func newState() *SState {
-	return &SState{Env: map[types.Object]SVal{}, Iv: map[string]Interval{}, Type: map[string]string{}, Not: map[string][]string{}, Marks: map[string]SVal{}, Asserts: map[types.Object][2]string{}}
+	return &SState{Env: map[types.Object]SVal{}, Iv: map[string]Interval{}, Type: map[string]string{}, Not: map[string][]string{}, Marks: map[string]SVal{}, Asserts: map[types.Object][2]string{}, Rets: map[string][]SVal{}}
 }
 
 func (s *SState) clone() *SState {
@@ -89,12 +91,19 @@ func (s *SState) clone() *SState {
 	for k, v := range s.Asserts {
 		c.Asserts[k] = v
 	}
+	for k, v := range s.Rets {
+		c.Rets[k] = v
+	}
 	return c
 }
 
 func (s *SState) key() string {
 	var parts []string
 	for o, v := range s.Env {
+		if fv, ok := o.(*fieldVar); ok {
+			parts = append(parts, fmt.Sprintf("e%p.%s=%d/%v/%d/%s", fv.Object, fv.field, v.Kind, v.B, v.K, v.Tok))
+			continue
+		}
 		parts = append(parts, fmt.Sprintf("e%p=%d/%v/%d/%s", o, v.Kind, v.B, v.K, v.Tok))
 	}
 	for t, iv := range s.Iv {
@@ -111,6 +120,13 @@ func (s *SState) key() string {
 	}
 	for k, v := range s.Asserts {
 		parts = append(parts, fmt.Sprintf("a%p=%s/%s", k, v[0], v[1]))
+	}
+	for k, vs := range s.Rets {
+		p := "r" + k
+		for _, v := range vs {
+			p += fmt.Sprintf("=%d/%v/%d/%s", v.Kind, v.B, v.K, v.Tok)
+		}
+		parts = append(parts, p)
 	}
 	sort.Strings(parts)
 	return strings.Join(parts, ";")
@@ -131,8 +147,132 @@ type Sym struct {
 	Prune     func(st *SState) bool                    // called after an edge's facts were applied; true drops the path
 	Exit      func(b *cfg.Block, st *SState)           // called at blocks without successors
 	Unlearned func(e ast.Expr, st *SState)             // a branch atom that neither decided nor refined anything
-	Overflow  bool
-	tsw       map[*ast.CaseClause]*ast.TypeSwitchStmt
+	// OnFact is called for every atom (and implied fact) assumed on the edge a path takes, with the state after it
+	OnFact   func(f cfgq.Fact, st *SState)
+	Overflow bool
+	// UnknownCalls counts calls through function-typed locals whose target the path does not know
+	UnknownCalls int
+	tables       map[*types.Var]tableInfo
+	root         *cfgq.Graph // the graph Run started on (G follows the walk into function literals)
+	tsw          map[*ast.CaseClause]*ast.TypeSwitchStmt
+	escaped      map[types.Object]bool // struct locals whose address is taken: their fields are not tracked
+}
+
+// fieldKey returns the Env key of `x.f` when x is a struct-valued local whose
+// address is never taken (so that only assignments that name it change it).
+func (w *Sym) fieldKey(e ast.Expr) (types.Object, bool) {
+	sel, ok := ast.Unparen(e).(*ast.SelectorExpr)
+	if !ok {
+		return nil, false
+	}
+	info := w.G.Info
+	id, ok := ast.Unparen(sel.X).(*ast.Ident)
+	if !ok {
+		return nil, false
+	}
+	base, isVar := core.ObjOf(info, id).(*types.Var)
+	if !isVar || base.IsField() || base.Pkg() == nil || base.Parent() == base.Pkg().Scope() {
+		return nil, false
+	}
+	if _, isStruct := base.Type().Underlying().(*types.Struct); !isStruct {
+		return nil, false
+	}
+	if s := info.Selections[sel]; s == nil || s.Kind() != types.FieldVal || len(s.Index()) != 1 {
+		return nil, false
+	}
+	if w.escaped == nil {
+		w.escaped = map[types.Object]bool{}
+		core.InspectAll(w.body(), func(n ast.Node) bool {
+			switch x := n.(type) {
+			case *ast.UnaryExpr:
+				if x.Op == token.AND {
+					root := ast.Unparen(x.X)
+					for {
+						if s, ok := root.(*ast.SelectorExpr); ok {
+							root = ast.Unparen(s.X)
+							continue
+						}
+						if ix, ok := root.(*ast.IndexExpr); ok {
+							root = ast.Unparen(ix.X)
+							continue
+						}
+						break
+					}
+					if o := Obj(info, root); o != nil {
+						w.escaped[o] = true
+					}
+				}
+			case *ast.SelectorExpr:
+				// a method with a pointer receiver called on (or bound from) an addressable variable
+				if s := info.Selections[x]; s != nil && s.Kind() == types.MethodVal {
+					if f, ok := s.Obj().(*types.Func); ok {
+						if sig, ok := f.Type().(*types.Signature); ok && sig.Recv() != nil {
+							if _, ptr := sig.Recv().Type().(*types.Pointer); ptr {
+								if o := Obj(info, x.X); o != nil {
+									w.escaped[o] = true
+								}
+							}
+						}
+					}
+				}
+			}
+			return true
+		})
+	}
+	if w.escaped[base] {
+		return nil, false
+	}
+	return fieldOf(base, sel.Sel.Name), true
+}
+
+// setStruct records what assigning v (the value of rhs) to the struct local o says about its fields.
+func (w *Sym) setStruct(o types.Object, rhs ast.Expr, st *SState) {
+	st.dropFields(o)
+	stt, isStruct := o.Type().Underlying().(*types.Struct)
+	if !isStruct || rhs == nil {
+		return
+	}
+	if w.escaped != nil && w.escaped[o] {
+		return
+	}
+	switch x := ast.Unparen(rhs).(type) {
+	case *ast.CompositeLit:
+		given := map[string]bool{}
+		for i, el := range x.Elts {
+			if kv, ok := el.(*ast.KeyValueExpr); ok {
+				if k, ok := kv.Key.(*ast.Ident); ok {
+					st.Env[fieldOf(o, k.Name)] = w.Eval(kv.Value, st)
+					given[k.Name] = true
+				}
+			} else if i < stt.NumFields() {
+				st.Env[fieldOf(o, stt.Field(i).Name())] = w.Eval(el, st)
+				given[stt.Field(i).Name()] = true
+			}
+		}
+		for i := 0; i < stt.NumFields(); i++ {
+			if f := stt.Field(i); !given[f.Name()] {
+				if z := zeroOf(f.Type()); z.Kind != SUnknown {
+					st.Env[fieldOf(o, f.Name())] = z
+				}
+			}
+		}
+	case *ast.Ident:
+		if from := core.ObjOf(w.G.Info, x); from != nil && from != o {
+			for i := 0; i < stt.NumFields(); i++ {
+				if v, ok := st.Env[fieldOf(from, stt.Field(i).Name())]; ok {
+					st.Env[fieldOf(o, stt.Field(i).Name())] = v
+				}
+			}
+		}
+	}
+}
+
+func (s *SState) dropFields(o types.Object) {
+	for k := range s.Env {
+		if fv, ok := k.(*fieldVar); ok && fv.Object == o {
+			delete(s.Env, k)
+		}
+	}
 }
 
 // Eval evaluates an expression under st.
@@ -164,6 +304,9 @@ func (w *Sym) Eval(e ast.Expr, st *SState) SVal {
 		}
 		return SVal{Tok: fmt.Sprintf("var%p", o), Src: x}
 	case *ast.CallExpr:
+		if rs, has := st.Rets[fmt.Sprintf("%p", x)]; has && len(rs) >= 1 {
+			return rs[0]
+		}
 		if tv, ok := info.Types[x.Fun]; ok && tv.IsType() && len(x.Args) == 1 {
 			if b, isBasic := tv.Type.Underlying().(*types.Basic); isBasic && b.Info()&types.IsInteger != 0 {
 				return w.Eval(x.Args[0], st)
@@ -202,6 +345,15 @@ func (w *Sym) Eval(e ast.Expr, st *SState) SVal {
 		if x.Op == token.AND {
 			return SVal{Kind: SNonNil, Tok: fmt.Sprintf("addr%p", x), Src: x}
 		}
+	case *ast.StarExpr:
+		// `*new(T)`: the zero value of T, as the normalisation stages spell it
+		if call, ok := ast.Unparen(x.X).(*ast.CallExpr); ok && IsBuiltin(info, call, "new") && len(call.Args) == 1 {
+			if t := info.TypeOf(call.Args[0]); t != nil {
+				if z := zeroOf(t); z.Kind != SUnknown {
+					return z
+				}
+			}
+		}
 	case *ast.BinaryExpr:
 		switch x.Op {
 		case token.ADD, token.SUB, token.MUL, token.QUO, token.REM, token.SHL, token.SHR, token.AND, token.OR, token.XOR:
@@ -217,6 +369,27 @@ func (w *Sym) Eval(e ast.Expr, st *SState) SVal {
 		}
 	case *ast.CompositeLit, *ast.FuncLit:
 		return SVal{Kind: SNonNil, Tok: fmt.Sprintf("lit%p", e), Src: e}
+	case *ast.IndexExpr:
+		if val, found, decided := w.lookup(x, st); decided {
+			if found {
+				return w.Eval(val, st)
+			}
+			if t := info.TypeOf(x); t != nil {
+				if z := zeroOf(t); z.Kind != SUnknown {
+					return z
+				}
+			}
+		}
+	case *ast.SelectorExpr:
+		if k, ok := w.fieldKey(x); ok {
+			if v, has := st.Env[k]; has {
+				return v
+			}
+			// a field of a struct value that came as a whole (a call result): named after that value, so copies agree
+			if b := w.Eval(x.X, st); b.Tok != "" {
+				return SVal{Tok: b.Tok + "." + x.Sel.Name, Src: x}
+			}
+		}
 	case *ast.SliceExpr:
 		if b := w.Eval(x.X, st); b.Kind == SNonNil {
 			return SVal{Kind: SNonNil, Tok: b.Tok, Src: b.Src}
@@ -228,19 +401,33 @@ func (w *Sym) Eval(e ast.Expr, st *SState) SVal {
 // Holds reports whether e mentions a variable that currently holds token tok.
 func (w *Sym) Holds(e ast.Node, st *SState, tok string) bool {
 	hit := false
+	check := func(v SVal, ok bool) {
+		if !ok {
+			return
+		}
+		if v.Tok == tok {
+			hit = true
+		}
+		for _, d := range v.Deps {
+			if d == tok {
+				hit = true
+			}
+		}
+	}
 	core.InspectAll(e, func(m ast.Node) bool {
-		if id, ok := m.(*ast.Ident); ok && !hit {
-			if o := core.ObjOf(w.G.Info, id); o != nil {
-				if v, ok := st.Env[o]; ok {
-					if v.Tok == tok {
-						hit = true
-					}
-					for _, d := range v.Deps {
-						if d == tok {
-							hit = true
-						}
-					}
-				}
+		if hit {
+			return false
+		}
+		switch x := m.(type) {
+		case *ast.Ident:
+			if o := core.ObjOf(w.G.Info, x); o != nil {
+				v, ok := st.Env[o]
+				check(v, ok)
+			}
+		case *ast.SelectorExpr:
+			if k, isField := w.fieldKey(x); isField {
+				v, ok := st.Env[k]
+				check(v, ok)
 			}
 		}
 		return !hit
@@ -266,11 +453,19 @@ func zeroOf(t types.Type) SVal {
 // apply updates st for the effect of node n.
 func (w *Sym) apply(n ast.Node, st *SState) {
 	info := w.G.Info
+	var rhsOf ast.Expr // the expression assigned, when the assignment is one-to-one
 	set := func(l ast.Expr, v SVal) {
 		if id, ok := ast.Unparen(l).(*ast.Ident); ok && id.Name != "_" {
 			if o := core.ObjOf(info, id); o != nil {
 				st.Env[o] = v
+				if _, isStruct := o.Type().Underlying().(*types.Struct); isStruct {
+					w.setStruct(o, rhsOf, st)
+				}
 			}
+			return
+		}
+		if k, ok := w.fieldKey(l); ok {
+			st.Env[k] = v
 		}
 	}
 	switch s := n.(type) {
@@ -286,8 +481,10 @@ func (w *Sym) apply(n ast.Node, st *SState) {
 				vals[i] = w.Eval(r, st)
 			}
 			for i, l := range s.Lhs {
+				rhsOf = s.Rhs[i]
 				set(l, vals[i])
 			}
+			rhsOf = nil
 		default:
 			if ta, ok := ast.Unparen(s.Rhs[0]).(*ast.TypeAssertExpr); ok && len(s.Lhs) == 2 && ta.Type != nil {
 				if okID, isID := ast.Unparen(s.Lhs[1]).(*ast.Ident); isID && okID.Name != "_" {
@@ -298,10 +495,20 @@ func (w *Sym) apply(n ast.Node, st *SState) {
 					}
 				}
 			}
+			if ix, ok := ast.Unparen(s.Rhs[0]).(*ast.IndexExpr); ok && len(s.Lhs) == 2 {
+				if _, found, decided := w.lookup(ix, st); decided {
+					set(s.Lhs[0], w.Eval(ix, st))
+					set(s.Lhs[1], SVal{Kind: SBool, B: found})
+					break
+				}
+			}
 			for i, l := range s.Lhs {
 				v := SVal{Tok: fmt.Sprintf("expr%p#%d", s.Rhs[0], i), Src: s.Rhs[0]}
 				if call, ok := ast.Unparen(s.Rhs[0]).(*ast.CallExpr); ok {
 					v = SVal{Tok: fmt.Sprintf("call%p#%d", call, i), Src: call}
+					if rs, has := st.Rets[fmt.Sprintf("%p", call)]; has && i < len(rs) {
+						v = rs[i]
+					}
 				}
 				set(l, v)
 			}
@@ -325,8 +532,14 @@ func (w *Sym) apply(n ast.Node, st *SState) {
 					switch {
 					case len(vs.Values) == len(vs.Names):
 						st.Env[o] = w.Eval(vs.Values[i], st)
+						if _, isStruct := o.Type().Underlying().(*types.Struct); isStruct && len(vs.Names) == 1 {
+							w.setStruct(o, vs.Values[i], st)
+						}
 					case len(vs.Values) == 0:
 						st.Env[o] = zeroOf(o.Type())
+						if _, isStruct := o.Type().Underlying().(*types.Struct); isStruct {
+							w.setStruct(o, &ast.CompositeLit{}, st)
+						}
 					default:
 						st.Env[o] = SVal{Tok: fmt.Sprintf("decl%p#%d", vs, i), Src: vs}
 					}
@@ -571,6 +784,21 @@ func (w *Sym) assume(e ast.Expr, val bool, st *SState) []*SState {
 	info := w.G.Info
 	e = ast.Unparen(e)
 	setVar := func(x ast.Expr, v SVal) {
+		if k, ok := w.fieldKey(x); ok {
+			old := w.Eval(x, st)
+			if v.Tok == "" {
+				v.Tok, v.Src = old.Tok, old.Src
+			}
+			st.Env[k] = v
+			if old.Tok != "" {
+				for h, hv := range st.Env {
+					if hv.Tok == old.Tok && h != k {
+						st.Env[h] = v
+					}
+				}
+			}
+			return
+		}
 		if id, ok := ast.Unparen(x).(*ast.Ident); ok {
 			if o := core.ObjOf(info, id); o != nil {
 				old := st.Env[o]
@@ -653,10 +881,45 @@ func (w *Sym) assume(e ast.Expr, val bool, st *SState) []*SState {
 	return []*SState{st}
 }
 
+// assumeCond refines st by "the branch condition e is val", following the
+// boolean structure of e: the states returned cover every way e can be val.
+func (w *Sym) assumeCond(e ast.Expr, val bool, st *SState) []*SState {
+	e = ast.Unparen(e)
+	chain := func(first []*SState, y ast.Expr, yv bool) []*SState {
+		var out []*SState
+		for _, s := range first {
+			out = append(out, w.assumeCond(y, yv, s)...)
+		}
+		return out
+	}
+	switch x := e.(type) {
+	case *ast.UnaryExpr:
+		if x.Op == token.NOT {
+			return w.assumeCond(x.X, !val, st)
+		}
+	case *ast.BinaryExpr:
+		if x.Op == token.LAND || x.Op == token.LOR {
+			// `a && b` holds / `a || b` fails: both atoms are decided; otherwise the first decides, or the second does after it
+			if (x.Op == token.LAND) == val {
+				return chain(w.assumeCond(x.X, val, st), x.Y, val)
+			}
+			out := w.assumeCond(x.X, val, st.clone())
+			return append(out, chain(w.assumeCond(x.X, !val, st.clone()), x.Y, val)...)
+		}
+	}
+	out := w.assume(e, val, st)
+	if w.OnFact != nil {
+		for _, s := range out {
+			w.OnFact(cfgq.Fact{Expr: e, Val: val}, s)
+		}
+	}
+	return out
+}
+
 func (w *Sym) typeSwitchOf(cc *ast.CaseClause) *ast.TypeSwitchStmt {
 	if w.tsw == nil {
 		w.tsw = map[*ast.CaseClause]*ast.TypeSwitchStmt{}
-		ast.Inspect(w.G.Body, func(n ast.Node) bool {
+		ast.Inspect(w.body(), func(n ast.Node) bool {
 			if ts, ok := n.(*ast.TypeSwitchStmt); ok {
 				for _, c := range ts.Body.List {
 					w.tsw[c.(*ast.CaseClause)] = ts
@@ -725,31 +988,309 @@ func (w *Sym) typeEdge(b *cfg.Block, succ int, st *SState) bool {
 	return true
 }
 
-// Run walks all paths from the entry of the graph.
+// body: the body of the function the walk started in.
+func (w *Sym) body() *ast.BlockStmt {
+	if w.root != nil {
+		return w.root.Body
+	}
+	return w.G.Body
+}
+
+// tableOf: ix indexes a table - a local bound once to a map (or slice/array)
+// literal with integer constant keys that is never written afterwards.
+func (w *Sym) tableOf(ix *ast.IndexExpr) (keys []ast.Expr, vals []ast.Expr, ok bool) {
+	info := w.G.Info
+	id, isID := ast.Unparen(ix.X).(*ast.Ident)
+	if !isID {
+		return nil, nil, false
+	}
+	tv, isVar := core.ObjOf(info, id).(*types.Var)
+	if !isVar || tv.IsField() {
+		return nil, nil, false
+	}
+	if c, done := w.tables[tv]; done {
+		return c.keys, c.vals, c.ok
+	}
+	if w.tables == nil {
+		w.tables = map[*types.Var]tableInfo{}
+	}
+	res := tableInfo{}
+	defer func() { w.tables[tv] = res }()
+	lit, isLit := ast.Unparen(ValueOf(info, w.body(), id)).(*ast.CompositeLit)
+	if !isLit || Assignments(info, w.body(), tv) != 1 {
+		return nil, nil, false
+	}
+	switch info.TypeOf(lit).Underlying().(type) {
+	case *types.Map:
+	default:
+		return nil, nil, false
+	}
+	written := false
+	core.InspectAll(w.body(), func(n ast.Node) bool {
+		switch x := n.(type) {
+		case *ast.AssignStmt:
+			for _, l := range x.Lhs {
+				if lx, ok := ast.Unparen(l).(*ast.IndexExpr); ok && IsObj(info, tv)(lx.X) {
+					written = true
+				}
+			}
+		case *ast.CallExpr:
+			for _, a := range x.Args {
+				if IsObj(info, tv)(a) {
+					written = true // delete(tbl, k), or handed to other code
+				}
+			}
+		case *ast.UnaryExpr:
+			if x.Op == token.AND && IsObj(info, tv)(x.X) {
+				written = true
+			}
+		}
+		return !written
+	})
+	if written {
+		return nil, nil, false
+	}
+	for _, el := range lit.Elts {
+		kv, keyed := el.(*ast.KeyValueExpr)
+		if !keyed {
+			return nil, nil, false
+		}
+		if _, isC := core.IntConst(info, kv.Key); !isC {
+			return nil, nil, false
+		}
+		res.keys, res.vals = append(res.keys, kv.Key), append(res.vals, kv.Value)
+	}
+	res.ok = len(res.keys) > 0
+	return res.keys, res.vals, res.ok
+}
+
+type tableInfo struct {
+	keys, vals []ast.Expr
+	ok         bool
+}
+
+// lookup evaluates a table lookup whose key is decided on this path.
+func (w *Sym) lookup(ix *ast.IndexExpr, st *SState) (val ast.Expr, found, decided bool) {
+	keys, vals, ok := w.tableOf(ix)
+	if !ok {
+		return nil, false, false
+	}
+	none := true
+	for i, k := range keys {
+		t, known := w.factTruth(&ast.BinaryExpr{X: ix.Index, Op: token.EQL, Y: k}, st)
+		if known && t {
+			return vals[i], true, true
+		}
+		if !known {
+			none = false
+		}
+	}
+	return nil, false, none
+}
+
+// forkLookup: node n looks a key up in a table and the path does not decide
+// which entry it finds: one state per entry (the key refined to it) and one
+// for "no entry".
+func (w *Sym) forkLookup(n ast.Node, st *SState) []*SState {
+	var ix *ast.IndexExpr
+	core.Inspect(n, func(m ast.Node) bool {
+		if x, ok := m.(*ast.IndexExpr); ok && ix == nil {
+			if _, _, isTab := w.tableOf(x); isTab {
+				if _, _, decided := w.lookup(x, st); !decided {
+					ix = x
+				}
+			}
+		}
+		return ix == nil
+	})
+	if ix == nil {
+		return nil
+	}
+	keys, _, _ := w.tableOf(ix)
+	var out []*SState
+	rest := []*SState{st.clone()}
+	for _, k := range keys {
+		eq := &ast.BinaryExpr{X: ix.Index, Op: token.EQL, Y: k}
+		out = append(out, w.assume(eq, true, st.clone())...)
+		var next []*SState
+		for _, r := range rest {
+			next = append(next, w.assume(eq, false, r)...)
+		}
+		rest = next
+	}
+	// progress is required: every state handed back must decide the lookup
+	all := append(out, rest...)
+	for _, s := range all {
+		if _, _, decided := w.lookup(ix, s); !decided {
+			return nil
+		}
+	}
+	return all
+}
+
+// litCall: node n calls, through a local, a function literal that the state
+// knows (`body := func() error {..}` assigned on this path; `body()`).
+func (w *Sym) litCall(n ast.Node, st *SState) (*ast.FuncLit, *ast.CallExpr) {
+	var lit *ast.FuncLit
+	var at *ast.CallExpr
+	many := false
+	for _, call := range cfgq.ExecCalls(n) {
+		// the callee: a function-typed local, or a function-typed field of a struct local
+		var held SVal
+		switch f := ast.Unparen(call.Fun).(type) {
+		case *ast.Ident:
+			v, isVar := core.ObjOf(w.G.Info, f).(*types.Var)
+			if !isVar {
+				continue
+			}
+			if _, isFunc := v.Type().Underlying().(*types.Signature); !isFunc {
+				continue
+			}
+			held = st.Env[v]
+		case *ast.SelectorExpr:
+			k, isField := w.fieldKey(f)
+			if !isField {
+				if sl := w.G.Info.Selections[f]; sl != nil && sl.Kind() == types.FieldVal {
+					if _, isFunc := sl.Type().Underlying().(*types.Signature); isFunc {
+						w.UnknownCalls++ // a function held in a field the walk does not track
+					}
+				}
+				continue
+			}
+			if _, isFunc := w.G.Info.TypeOf(f).Underlying().(*types.Signature); !isFunc {
+				continue
+			}
+			held = st.Env[k]
+		default:
+			continue
+		}
+		l, isLit := held.Src.(*ast.FuncLit)
+		if !isLit || !strings.HasPrefix(held.Tok, "lit") {
+			w.UnknownCalls++
+			continue
+		}
+		if lit != nil {
+			many = true
+		}
+		lit, at = l, call
+	}
+	if many {
+		w.UnknownCalls++
+		return nil, nil
+	}
+	return lit, at
+}
+
+// Run walks all paths from the entry of the graph. A call, through a local,
+// of a function literal known on the path (a closure chosen in a switch arm and
+// called behind it; a step of a table) is entered: the literal's body is
+// walked with the path's state and the walk resumes behind the call. Returns
+// inside such a literal are presented to Visit as expression statements (their
+// calls are executed, but they do not leave the function under analysis).
 func (w *Sym) Run(init *SState) {
 	if init == nil {
 		init = newState()
 	}
 	seen := map[string]bool{}
 	steps := 0
-	var walk func(b *cfg.Block, st *SState)
-	walk = func(b *cfg.Block, st *SState) {
-		k := fmt.Sprintf("%d|%s", b.Index, st.key())
-		if seen[k] {
-			return
+	top := w.G
+	w.root = top
+	defer func() { w.G = top }()
+	// lcall: the call through which the literal being walked was entered (nil at the top)
+	var walkIn func(g *cfgq.Graph, ctx string, lcall *ast.CallExpr, b *cfg.Block, from int, entered bool, st *SState, done func(*SState))
+	var lcallOf = map[string]*ast.CallExpr{}
+	var walk func(g *cfgq.Graph, ctx string, b *cfg.Block, from int, entered bool, st *SState, done func(*SState))
+	walk = func(g *cfgq.Graph, ctx string, b *cfg.Block, from int, entered bool, st *SState, done func(*SState)) {
+		walkIn(g, ctx, lcallOf[ctx], b, from, entered, st, done)
+	}
+	walkIn = func(g *cfgq.Graph, ctx string, lcall *ast.CallExpr, b *cfg.Block, from int, entered bool, st *SState, done func(*SState)) {
+		w.G = g
+		if from == 0 {
+			k := fmt.Sprintf("%s|%d|%s", ctx, b.Index, st.key())
+			if seen[k] {
+				return
+			}
+			seen[k] = true
 		}
-		seen[k] = true
 		if steps++; steps > 20000 {
 			w.Overflow = true
 			return
 		}
-		for _, n := range b.Nodes {
-			if w.Visit != nil && w.Visit(n, st) {
-				return
+		for i := from; i < len(b.Nodes); i++ {
+			n := b.Nodes[i]
+			if !(entered && i == from) {
+				if forks := w.forkLookup(n, st); len(forks) > 0 {
+					for _, s := range forks {
+						walk(g, ctx, b, i, false, s, done)
+						w.G = g
+					}
+					return
+				}
 			}
-			w.apply(n, st)
+			if !(entered && i == from) && strings.Count(ctx, ">") < 2 {
+				if lit, call := w.litCall(n, st); lit != nil {
+					lg := GraphOfLit(g.Prog, g.Info, lit)
+					if lg != nil && g.Prog != nil && len(lg.CFG.Blocks) > 0 {
+						// bind the parameters, walk the body, resume at this node
+						k := 0
+						for _, f := range lit.Type.Params.List {
+							for _, nm := range f.Names {
+								if o := g.Info.Defs[nm]; o != nil && k < len(call.Args) {
+									st.Env[o] = w.Eval(call.Args[k], st)
+								}
+								k++
+							}
+							if len(f.Names) == 0 {
+								k++
+							}
+						}
+						bb, ii := b, i
+						lcallOf[ctx+fmt.Sprintf("%p>", call)] = call
+						delete(st.Rets, fmt.Sprintf("%p", call))
+						walk(lg, ctx+fmt.Sprintf("%p>", call), lg.CFG.Blocks[0], 0, false, st, func(s2 *SState) {
+							walk(g, ctx, bb, ii, true, s2, done)
+						})
+						w.G = g
+						return
+					}
+				}
+			}
+			vn := n
+			if done != nil {
+				if ret, isRet := n.(*ast.ReturnStmt); isRet {
+					// a return of the literal: its results are evaluated, the function under analysis goes on
+					stop := false
+					var vals []SVal
+					for _, r := range ret.Results {
+						if w.Visit != nil && w.Visit(&ast.ExprStmt{X: r}, st) {
+							stop = true
+						}
+						vals = append(vals, w.Eval(r, st))
+					}
+					if stop {
+						return
+					}
+					if lcall != nil {
+						st.Rets[fmt.Sprintf("%p", lcall)] = vals
+					}
+					vn = nil
+				}
+			}
+			if vn != nil {
+				if w.Visit != nil && w.Visit(vn, st) {
+					return
+				}
+				w.apply(vn, st)
+			}
 		}
 		if len(b.Succs) == 0 {
+			if done != nil {
+				if cfgq.NormalExit(b, g.Exit(b)) {
+					done(st)
+					w.G = g
+				}
+				return
+			}
 			if w.Exit != nil {
 				w.Exit(b, st)
 			}
@@ -761,10 +1302,22 @@ func (w *Sym) Run(init *SState) {
 				continue
 			}
 			if c := cfgq.CondOf(b); c != nil && len(b.Succs) == 2 {
-				for _, f := range EdgeFacts(w.G, b, si) {
+				facts := EdgeFacts(g, b, si)
+				if b.Succs[0].Kind != cfg.KindSwitchCaseBody {
+					// the condition itself, structurally (go/cfg keeps `a || b` in one block): a disjunction
+					// that holds forks into "a" and "!a, b"; what the atoms imply beyond themselves follows
+					states = w.assumeCond(c, si == 0, states[0])
+					facts = facts[len(cfgq.Facts(c, si == 0)):]
+				}
+				for _, f := range facts {
 					var next []*SState
 					for _, s := range states {
-						next = append(next, w.assume(f.Expr, f.Val, s)...)
+						for _, r := range w.assume(f.Expr, f.Val, s) {
+							if w.OnFact != nil {
+								w.OnFact(f, r)
+							}
+							next = append(next, r)
+						}
 					}
 					states = next
 				}
@@ -784,11 +1337,29 @@ func (w *Sym) Run(init *SState) {
 				if w.Prune != nil && w.Prune(s) {
 					continue
 				}
-				walk(t, s)
+				walk(g, ctx, t, 0, false, s, done)
+				w.G = g
 			}
 		}
 	}
-	walk(w.G.CFG.Blocks[0], init)
+	walk(top, "", top.CFG.Blocks[0], 0, false, init, nil)
+}
+
+// Results returns the values a return statement yields on this path; a single
+// call of a function literal that the walk entered stands for what it returned.
+func (w *Sym) Results(ret *ast.ReturnStmt, st *SState) []SVal {
+	if len(ret.Results) == 1 {
+		if call, ok := ast.Unparen(ret.Results[0]).(*ast.CallExpr); ok {
+			if rs, has := st.Rets[fmt.Sprintf("%p", call)]; has {
+				return rs
+			}
+		}
+	}
+	out := make([]SVal, len(ret.Results))
+	for i, r := range ret.Results {
+		out[i] = w.Eval(r, st)
+	}
+	return out
 }
 
 // NewState returns an empty state (for callers that seed parameters).
